@@ -63,9 +63,9 @@ PROPS = {
         thorough=dict(checks=700, shards=16, timeout=3000),
     ),
     "C04": dict(
-        run="^(TestC04|TestC04Concurrent|TestC04WaitingPull|TestC04Stress)$",
+        run="^(TestC04|TestC04Concurrent|TestC04WaitingPull|TestC04Stress|TestC04StreamModack)$",
         level="exploration",
-        rule="histories of real API calls drawn by a rapid state machine from the reference model's current state (virtual clock; profile C04), followed by a drain phase where stated; oracle: observation-driven reference model of Pub/Sub semantics (must / must-not / may sets per pull); one or two subscriptions, retry policies absent / min only / max only / both from 100 ms to hours, up to 140 steps of pull / modack / nack / advance landing just before and just after each deadline; non-trivial = a message reaches attempt >=3 with at least one modack in between (sequential); >=2 pullers whose four transaction boundaries each are interleaved by the harness - all 70 merge orders for two pullers in the thorough tier, a third of them in quick, sampled orders for three pullers - inside one lease window (concurrent); waiting-consumer scripts on the real clock (one case in 30, thorough one in 10): retry policy 200-900 ms, 1-3 messages taken as attempt 1 and never answered, then a blocking Pull or a StreamingPull that is already waiting when the lease lapses - it must receive nothing before the deadline (-30 ms) and the message as attempt 2 within deadline + jitter + 1.2 s (3-of-3), i.e. through the pull's own retry timer since nothing commits at that moment; stress runs on the real clock (one case in 20, thorough one in 6): 1-3 publishers and 2-4 pullers of ONE subscription running at the same time over real gRPC (10-120 messages, batch sizes 1/3/10, max_messages 1/2/5/100, ordered or not, some acks deferred to the end), failed requests (SQLite busy) simply repeated - oracle: within the run, which is far shorter than the 10 s default lease, every accepted message id is delivered exactly once, as attempt 1, and none is missing after 20 consecutive empty responses following the last publish; the sampling of the real-clock parts mixes the drawn value because rapid favours boundary values; distinct by hash of the operation list",
+        rule="histories of real API calls drawn by a rapid state machine from the reference model's current state (virtual clock; profile C04), followed by a drain phase where stated; oracle: observation-driven reference model of Pub/Sub semantics (must / must-not / may sets per pull); one or two subscriptions, retry policies absent / min only / max only / both from 100 ms to hours, up to 140 steps of pull / modack / nack / advance landing just before and just after each deadline; non-trivial = a message reaches attempt >=3 with at least one modack in between (sequential); >=2 pullers whose four transaction boundaries each are interleaved by the harness - all 70 merge orders for two pullers in the thorough tier, a third of them in quick, sampled orders for three pullers - inside one lease window (concurrent); waiting-consumer scripts on the real clock (one case in 30, thorough one in 10): retry policy 200-900 ms, 1-3 messages taken as attempt 1 and never answered, then a blocking Pull or a StreamingPull that is already waiting when the lease lapses - it must receive nothing before the deadline (-30 ms) and the message as attempt 2 within deadline + jitter + 1.2 s (3-of-3), i.e. through the pull's own retry timer since nothing commits at that moment; stress runs on the real clock (one case in 20, thorough one in 6): 1-3 publishers and 2-4 pullers of ONE subscription running at the same time over real gRPC (10-120 messages, batch sizes 1/3/10, max_messages 1/2/5/100, ordered or not, some acks deferred to the end), failed requests (SQLite busy) simply repeated - oracle: within the run, which is far shorter than the 10 s default lease, every accepted message id is delivered exactly once, as attempt 1, and none is missing after 20 consecutive empty responses following the last publish; the sampling of the real-clock parts mixes the drawn value because rapid favours boundary values; distinct by hash of the operation list. Stream modify-deadline lists (TestC04StreamModack, real clock, real StreamingPull RPC, one case in 40, thorough one in 10): 2-6 messages outstanding on a stream under a lease of at least 5 minutes, then ONE request whose modify-deadline list gives each message 0, 20 or 60 seconds or leaves it out, in generated order (the handler splits the list into runs of equal deadlines); oracle over a 900 ms window: a message whose deadline was postponed or left alone is never handed out again (an invariant, counts at once), every message given deadline 0 comes back as attempt 2 (3-of-3); non-trivial there = at least two distinct deadlines in the request",
         assumptions=['virtual clock: time.Now/Since/Until in actions/ and services/ are redirected by the build overlay', 'SQLite backend only', "every time comparison carries a 10 ms margin; anything inside a margin or inside the <1 s jitter window is 'may'"],
         quick=dict(checks=800, timeout=1200),
         thorough=dict(checks=500, shards=16, timeout=3000),
